@@ -14,6 +14,8 @@ from vfw.runner import CaseResult
 NAMES = ['song.mp3', 'a (1).txt', 'x']
 OFFSETS_MS = [0, 0, 0, 0.1, 0.5, 1, 5, 25, 40, 70, 100]
 EXEC_DELAYS = [0.0, 0.0, 0.0005, 0.002, 0.02]
+# the user re-configures settings.shares.download while downloads come and go (virtual ms after the first download call)
+SWITCH_MS = [None, None, None, 5, 20, 50, 60, 90]
 
 
 @st.composite
@@ -33,6 +35,11 @@ def conc_case(draw):
         # the first attempt of download 0 breaks before its first byte (reset / EOF at 0); it is retried later
         'first_fault': draw(st.sampled_from(['none', 'none', 'none', 'reset0', 'eof0'])),
         'retry_ms': draw(st.sampled_from([50, 150, 300])),
+        # change of the download directory setting at switch_ms (None = never); relative = given relative to the
+        # (unchanged) working directory; rel0 = the initial setting is relative
+        'switch_ms': draw(st.sampled_from(SWITCH_MS)),
+        'switch_rel': draw(st.booleans()),
+        'rel0': draw(st.sampled_from([False, False, True])),
     }
 
 
@@ -51,6 +58,14 @@ def enumerated():
                 yield {'t': 'conc', 'name': NAMES[0], 'n': 2, 'download_at': [0, second_at], 'start_at': [0, 0],
                        'sizes': [5000, 20000], 'exec_delay': 0.0, 'pre': 'none', 'limited': True, 'same_dir': True,
                        'first_fault': ff, 'retry_ms': retry}
+    # the user changes the download directory between two downloads (absolute / relative setting): the first path
+    # has been chosen in the old directory, the second download starts well after the change
+    for name in NAMES[:2]:
+        for rel0, switch_rel in ((False, False), (False, True), (True, False), (True, True)):
+            for n, dl_at, sw in ((2, [0, 100], 50), (2, [0, 70], 40), (3, [0, 0, 100], 60)):
+                yield {'t': 'conc', 'name': name, 'n': n, 'download_at': dl_at, 'start_at': [0] * n,
+                       'sizes': [300] * n, 'exec_delay': 0.0, 'pre': 'none' if rel0 else 'file', 'limited': False,
+                       'same_dir': True, 'switch_ms': sw, 'switch_rel': switch_rel, 'rel0': rel0}
     # three downloads, two starting together and the third arriving while the second is still starting up
     # (slow executor: every file-system step takes 2 / 20 ms)
     for ed in (0.002, 0.02):
@@ -78,12 +93,19 @@ def run_conc_case(case, res: CaseResult):
     same_dir = bool(case.get('same_dir', True))
     first_fault = case.get('first_fault') if case.get('first_fault') in ('reset0', 'eof0') else 'none'
     retry_s = _num(case.get('retry_ms', 150), 20, 1000, 150) / 1000.0
+    switch_s = None if case.get('switch_ms') is None else _num(case.get('switch_ms'), 0, 200, 50) / 1000.0
+    switch_rel = bool(case.get('switch_rel'))
+    rel0 = bool(case.get('rel0'))
     tmp = tempfile.mkdtemp(prefix='vfw-c09-', dir='/dev/shm' if os.path.isdir('/dev/shm') else None)
     out = {}
     try:
         parent = os.path.join(tmp, 'parent')
         dl = os.path.join(parent, 'dl')
+        dl2 = os.path.join(parent, 'dl2')          # the directory configured after the switch
         os.makedirs(dl)
+        os.makedirs(dl2)
+        cwd = os.getcwd()                          # never changed
+        chosen = []                                # (configured directory at the moment of the call, chosen path)
         stem, ext = os.path.splitext(name)
         if pre in ('file', 'file+1'):
             with open(os.path.join(dl, name), 'wb') as fh:
@@ -96,7 +118,7 @@ def run_conc_case(case, res: CaseResult):
         async def main(world):
             loop = world.loop
             s = simworld.mk_settings('me')
-            s.shares.download = dl
+            s.shares.download = os.path.relpath(dl, cwd) if rel0 else dl
             ups = []
             for i in range(n):
                 rdir = 'music' if same_dir else 'music%d' % i
@@ -121,6 +143,25 @@ def run_conc_case(case, res: CaseResult):
                     return {'fault': 'reset' if first_fault == 'reset0' else 'eof', 'k': 0}
                 up0.plan = plan0
             client = await world.start_client(s)
+            # observation only: which directory is configured at the moment a local path is chosen
+            shares = client.shares
+            real_calculate = shares.calculate_download_path
+
+            def observed_calculate(remote_path):
+                configured = os.path.abspath(s.shares.download)
+                result = real_calculate(remote_path)
+                try:
+                    chosen.append((configured, os.path.join(*result)))
+                except Exception:
+                    pass
+                return result
+            shares.calculate_download_path = observed_calculate
+
+            async def switch():
+                await asyncio.sleep(switch_s)
+                s.shares.download = os.path.relpath(dl2, cwd) if switch_rel else dl2
+                out['switched_at'] = loop.time()
+            switch_task = asyncio.ensure_future(switch()) if switch_s is not None else None
             if limited:
                 client.network.set_download_speed_limit(64)
             if exec_delay:
@@ -161,6 +202,8 @@ def run_conc_case(case, res: CaseResult):
                         data = fh.read()
                 out['files'].append(data == xfer.content(100 + i, sizes[i]) if data is not None else None)
             loop.executor_delay = None
+            if switch_task is not None:
+                switch_task.cancel()
             await client.stop()
 
         _, loop_errors = simworld.run_world(main)
@@ -173,12 +216,30 @@ def run_conc_case(case, res: CaseResult):
         complete_paths = [p for s_, p in final if s_ == 'COMPLETE']
         if len(set(complete_paths)) < len(complete_paths) and not out.get('shared'):
             res.violate('C09/completed-downloads-share-local-path', str(final))
+        configured_for = {}
+        for configured, p in chosen:
+            configured_for[p] = configured         # the last calculation that produced p
+        seen_dirs = []
+        for configured, p in chosen:
+            # judged at the moment the path is chosen, against the directory configured at that moment
+            if os.path.realpath(os.path.dirname(p)) != os.path.realpath(configured):
+                if os.path.realpath(os.path.dirname(p)) in [os.path.realpath(d) for d in seen_dirs if d != configured]:
+                    res.violate('C09/previously-configured-download-directory-used:transfer',
+                                f'path {p!r} chosen while {configured!r} was configured '
+                                f'(setting changed at {out.get("switched_at")}); final={final}')
+                else:
+                    res.violate('C09/local-path-not-directly-in-download-directory', f'{p} (configured {configured})')
+            if configured not in seen_dirs:
+                seen_dirs.append(configured)
         for i, (s_, p) in enumerate(final):
-            if p and os.path.realpath(p) != os.path.realpath(os.path.join(dl, os.path.basename(p))):
+            expected_dir = configured_for.get(p, dl)
+            if p and p not in configured_for and \
+                    os.path.realpath(p) != os.path.realpath(os.path.join(expected_dir, os.path.basename(p))):
                 res.violate('C09/local-path-not-directly-in-download-directory', str(p))
             if s_ == 'COMPLETE' and out['files'][i] is False and not out.get('shared'):
                 res.violate('C09/complete-file-differs-from-source:concurrent', str(final))
-            if p and pre != 'none' and os.path.basename(p) == name:
+            if p and pre != 'none' and os.path.basename(p) == name and \
+                    os.path.realpath(os.path.dirname(p)) == os.path.realpath(dl):
                 res.violate('C09/existing-file-chosen:concurrent', str(final))
         if pre != 'none':
             with open(os.path.join(dl, name), 'rb') as fh:
@@ -189,7 +250,15 @@ def run_conc_case(case, res: CaseResult):
             break
         same_instant = len(set(round(a + b, 6) for a, b in zip(dl_at, st_at))) < n
         res.nontrivial = True
-        res.key = ['conc', name, n, dl_at, st_at, sizes, exec_delay, pre, limited, same_dir, first_fault, retry_s]
+        res.key = ['conc', name, n, dl_at, st_at, sizes, exec_delay, pre, limited, same_dir, first_fault, retry_s,
+                   switch_s, switch_rel, rel0]
+        if switch_s is not None:
+            res.label('conc:download-setting-switched')
+            dirs_used = sorted({os.path.realpath(c) for c, _ in chosen})
+            if len(dirs_used) > 1:
+                res.label('conc:paths-chosen-before-and-after-switch')
+        if rel0 or (switch_rel and switch_s is not None):
+            res.label('conc:relative-setting')
         if first_fault != 'none':
             res.label('conc:first-attempt-fails-before-first-byte')
         res.label('conc', 'conc:n=%d' % n, 'conc:pre=' + pre)
